@@ -11,6 +11,8 @@ FUNCTIONS = [('typing', 'binary_sequence.__init__'), ('typing', 'binary_sequence
 BOUNDS = {'quick': 'sequence lengths <= 4 (constructor <= 4 elements, operands <= 3+3), slices with start/stop in -(n+1)..(n+1), '
                    'step in {-2,-1,1,2,3}; comparison signals of length <= 3',
           'thorough': 'constructor <= 6 elements, operands <= 4+4, signals of length <= 4',
+          'rejection': 'the other operand of + (both orders; list / tuple / ndarray) drawn from integers in [-1,2], integers in [-600,600] '
+                       '(values that wrap to 0/1 in uint8) and reals in [-2,3] (fractions that truncate to 0/1): accepted iff every element is 0 or 1',
           'symbolic': 'every element value (reals for the constructor, bits for the algebra, reals/complex for signals and thresholds)'}
 OUTSIDE = ['symbolic string contents (strings are concrete test texts)', 'lengths above the bound',
            'ndarray as the LEFT operand of + (numpy takes over the dispatch and fails before binary_sequence is consulted)']
